@@ -12,7 +12,7 @@ CONSTANTS
   MaxInstr = 3
   MaxTx = 4
   SupplyCap = 8
-  DataVals = {1, 2}
+  DataVals = {7, 8}
   InitLedgers <- InitNU
   FailOdds = 5
   EndOdds = 2
